@@ -139,6 +139,7 @@ def job_interior(job, cls, nx):
             if not d.is_zero() and not T.rational_equal(P(got), P(want)):
                 bad.append(T.b_not(T.b_eq0(d)))
         hyp = [] if fluid is None else [T.b_le(P(_u(coef, xs[i], t.d[1])[0]), P(fluid.m_i)) for i in range(nx)]
+        job.prove(f"L1/{cls}[nx={nx}]/reach[path{k}]", pr.pc + hyp, expect="sat", elim=True)
         job.prove(f"L1/{cls}[nx={nx}]: interior rows exact for cubic-in-x, linear-in-t test functions on the code's mesh[path{k}]",
                   pr.pc + hyp + [T.b_or(*bad) if bad else T.b_const(False)], bound=f"nx={nx}, any dt, any coefficients, any diffusivity",
                   replay=(replay_mesh, {"cls": cls, "nx": nx}), note="canonical-form identity" if not bad else None)
@@ -166,6 +167,7 @@ def job_boundary(job, nx):
             rows = rows_of(r)
             A, b, x = calls[0]["A"].rows, calls[0]["b"], calls[0]["x"]
             rp = (replay_rows, {"cls": cls, "nx": nx, "nt": 2})
+            job.prove(f"boundary/{cls}[nx={nx}]/reach[path{k}]", pr.pc, expect="sat", elim=True, abstract=False)
             # L4 initial state
             if fluid is None:
                 init_bad = T.b_or(*[T.b_not(T.b_eq0(P(v - 1))) for v in rows[0]])
